@@ -315,7 +315,7 @@ def cases(tier, seed):
     for r in chosen:
         if r["size"] > 6000:
             # charstring-heavy fonts take seconds per damaged variant: a few tables per case
-            step = 2 if r["size"] > 40000 else 5
+            step = (1 if r["size"] > 40000 else 2) if T else (2 if r["size"] > 40000 else 5)
             for i in range(0, len(r["tables"]), step):
                 add("payload", font=r["path"], tags=r["tables"][i:i + step], tagkey="+".join(r["tables"][i:i + step]), short=short)
         else:
@@ -491,44 +491,59 @@ def _probe_open(ctx, data, lazy, container, fault, where):
                     _bad_open(ctx, e, container, "read-table", mode, fault, where)
                 else:
                     ctx.judged()
-                    # independent reading of the directory: the bytes returned must be the whole table
-                    if want is not None and str(tag) in want and len(got) != want[str(tag)]:
-                        _bad_short(ctx, container, mode, fault, where, str(tag), len(got), want[str(tag)])
+                    # independent reading of the directory: the table must lie inside the file and the bytes
+                    # returned must be the whole table (a font cut short is rejected, not completed)
+                    if want is not None and str(tag) in want:
+                        off, ln, outlen = want[str(tag)]
+                        if ln > 0 and off + ln > len(data):
+                            _bad_short(ctx, container, mode, fault, where, str(tag), len(got), ln, beyond=off + ln - len(data))
+                        elif outlen is not None and len(got) != outlen:
+                            _bad_short(ctx, container, mode, fault, where, str(tag), len(got), outlen)
     _cur["exc"] = _cur["stage"] = None
     return reached, outcomes
 
 
 def _dir_lengths(data, container, index):
-    """{tag: length} of the (damaged) directory read by the spec-written parser; None when it is
-    unreadable or ambiguous (duplicate tags)."""
+    """{tag: (offset, stored length, decoded length or None)} of the (damaged) directory read by the
+    spec-written parser; None when it is unreadable or ambiguous (duplicate tags)."""
     try:
-        if container == "sfnt":
-            base = 0
-        elif container == "ttc":
-            base = S.ttc_offsets(data)[1][index]
+        if container == "woff":
+            flav, wents = S.woff_directory(data)
+            ents = [(tag, off, comp, (orig if comp == orig else None)) for tag, off, comp, orig, cs in wents]
         else:
-            return None
-        ver, ents = S.sfnt_directory(data, base)
+            if container == "sfnt":
+                base = 0
+            elif container == "ttc":
+                base = S.ttc_offsets(data)[1][index]
+            else:
+                return None
+            ver, sents = S.sfnt_directory(data, base)
+            ents = [(tag, off, ln, ln) for tag, cs, off, ln in sents]
     except (S.Bad, IndexError, ValueError, OverflowError, MemoryError):
         return None
     out = {}
-    for tag, cs, off, ln in ents:
+    for tag, off, ln, outlen in ents:
         t = tag.decode("latin-1")
         if t in out:
             return None
-        out[t] = ln
+        out[t] = (off, ln, outlen)
     return out
 
 
-def _bad_short(ctx, container, mode, fault, where, tag, got, want):
+def _bad_short(ctx, container, mode, fault, where, tag, got, want, beyond=None):
     mech = {"kind": "open-error", "container": container, "type": None, "stage": "read-table", "what": "short-table-returned", "fault": fault}
     key = tuple(sorted(mech.items(), key=repr))
     seen = _cur.setdefault("seen_mech", set())
     if key in seen:
         return
     seen.add(key)
-    ctx.violation(mech, "reader[%r] of a damaged %s returned %d bytes although the directory announces %d: a cut-short table is accepted silently"
-                  % (tag, container, got, want), dict(where, api=mode, table=tag))
+    if beyond:
+        what = ("reader[%r] of a damaged %s returned %d bytes although the table ends %d bytes past the end of the file: "
+                "a cut-short table is completed silently" % (tag, container, got, beyond))
+    else:
+        what = ("reader[%r] of a damaged %s returned %d bytes although the directory announces %d: a cut-short table is "
+                "accepted silently" % (tag, container, got, want))
+    ctx.violation(mech, what, dict(where, api=mode, table=tag))
 
 
 def _bad_open(ctx, e, container, stage, mode, fault, where):
